@@ -261,6 +261,10 @@ fn struct_init_block<'a>(input: &'a Struct, ctx: &'a ImplContext) -> TokenStream
         return TokenStream::new();
     }
 
+    if !ctx.kind.is_from() && input.unit && ctx.struct_attr.type_hint == TypeHint::Unspecified && input.attrs.ghosts_attr(&ctx.struct_attr.ty, &ctx.kind).is_none() {
+        return TokenStream::new();
+    }
+
     let mut group_paths = HashMap::<String, usize>::new();
     group_paths.insert("".into(), 0);
 
